@@ -280,12 +280,40 @@ ODD_NAMES = ['', '/', '//', '///', '////', '/a//', '/a/', 'a', 'a/', 'a//', '//a
              '//32=', '/=', '/中文/\U0001f600']
 
 
+_UNRESERVED = set(b'ABCDEFGHIJKLMNOPQRSTUVWXYZabcdefghijklmnopqrstuvwxyz0123456789-._~')
+_ALT_WORD = {50: 'seg', 52: 'off', 54: 'v', 56: 't', 58: 'seq'}
+
+
+def _gen_tl(n):
+    """the generator's own TL-number writer (the generator must not depend on the library it feeds)"""
+    if n < 253:
+        return bytes([n])
+    if n < 65536:
+        return b'\xfd' + n.to_bytes(2, 'big')
+    if n < 2**32:
+        return b'\xfe' + n.to_bytes(4, 'big')
+    return b'\xff' + n.to_bytes(8, 'big')
+
+
+def _gen_comp(t, v):
+    return _gen_tl(t) + _gen_tl(len(v)) + v
+
+
+def _gen_uri(t, v, short):
+    """a component URI written by the generator itself from the NDN URI scheme: `short` = with the shorthands
+    (generic type omitted, sha256digest= / params-sha256= in hex, seg= / off= / v= / t= / seq= for numbers of a legal width)"""
+    if t in (1, 2):
+        return ('sha256digest=' if t == 1 else 'params-sha256=') + v.hex()
+    if short and t in _ALT_WORD and len(v) in (1, 2, 4, 8):
+        return '%s=%d' % (_ALT_WORD[t], int.from_bytes(v, 'big'))
+    esc = ''.join(chr(b) if b in _UNRESERVED else '%%%02X' % b for b in v)
+    return esc if (short and t == 8) else '%d=%s' % (t, esc)
+
+
 def _rand_uri(rng):
     """a valid canonical component URI, then perhaps damaged"""
-    Name, Component = _imports()
     t, vh = _comp(rng)
-    c = Component.from_bytes(bytes.fromhex(vh), t)
-    s = Component.to_str(c) if rng.random() < 0.5 else Component.to_canonical_uri(c)
+    s = _gen_uri(t, bytes.fromhex(vh), rng.random() < 0.5)
     r = rng.random()
     if r < 0.25:
         return s
@@ -322,9 +350,8 @@ def _rand_text(rng):
 
 
 def _wire(rng):
-    Name, Component = _imports()
-    n = [Component.from_bytes(bytes.fromhex(v), t) for t, v in _name(rng, 0, 4)]
-    w = bytearray(Name.encode(n))
+    body = b''.join(_gen_comp(t, bytes.fromhex(v)) for t, v in _name(rng, 0, 4))
+    w = bytearray(b'\x07' + _gen_tl(len(body)) + body)
     r = rng.random()
     if r < 0.3:
         return bytes(w).hex()
